@@ -112,16 +112,16 @@ CHECKS = {
  "C02": dict(
   engine="E2",
   technique="bounded exhaustive enumeration of (design, payload value) pairs executed through generated client -> in-memory HTTP wire -> generated server -> stub, compared with a reference model of locations and defaults",
-  text="For every accepted design of the L1 request families (complete product type x location x requiredness; ordered pairs over a reduced menu) and every valid payload value of the boundary menus (complete product per method), the payload handed to the generated client endpoint is compared with the payload received by the stub service behind the generated server, and the tapped server-side http.Request is checked attribute by attribute against the designed location (path segment, query key, header, cookie, JSON body key) and for undesigned query/body keys; a structural-feature family (all verbs, multiple routes, catch-all, map params, Body(attr)/Body(func), empty body, content types, primitive payloads) is driven the same way, and so is the deep type-structure family of JSON bodies (OneOf unions of primitives / user types / aliases as required and optional attributes, inside user types and arrays; user type in user type in array, maps of user types and of arrays of them, arrays of arrays and of maps, one type at several positions, mutually recursive types, defaults and required attributes inside optional inner objects; arrays, maps and primitive aliases as the whole body), where a union must travel as an object with the keys Type (alternative name) and Value (JSON text of its value). In the thorough tier the same oracle is extended to HTTP (WebSocket) streaming endpoints (server, client, bidirectional and payload-carrying kinds x object, user type, string, int, array<string> elements) over loopback sockets: for every request sequence of length 0-3 over a 3-value alphabet (complete, plus every boundary value as a single message; bidirectional: complete product with the reply sequences under three fixed schedules) the scripted stub service must receive exactly the client messages in order followed by io.EOF, and the initial payload must arrive equal and in its designed location. Exhaustive within the envelope; both halves of the generated code are executed against each other, which no golden test does.",
+  text="For every accepted design of the L1 request families (complete product type x location x requiredness; ordered pairs over a reduced menu) and every valid payload value of the boundary menus (complete product per method), the payload handed to the generated client endpoint is compared with the payload received by the stub service behind the generated server, and the tapped server-side http.Request is checked attribute by attribute against the designed location (path segment, query key, header, cookie, JSON body key) and for undesigned query/body keys; a structural-feature family (all verbs, multiple routes, catch-all, map params, Body(attr)/Body(func), empty body, content types, primitive payloads) is driven the same way, and so is the deep type-structure family of JSON bodies (OneOf unions of primitives / user types / aliases as required and optional attributes, inside user types and arrays; user type in user type in array, maps of user types and of arrays of them, arrays of arrays and of maps, one type at several positions, mutually recursive types, defaults and required attributes inside optional inner objects; arrays, maps and primitive aliases as the whole body), where a union must travel as an object with the keys Type (alternative name) and Value (JSON text of its value). In the thorough tier the same oracle is extended to HTTP (WebSocket) streaming endpoints (server, client, bidirectional and payload-carrying kinds x object, user type, string, int, array<string> elements) over loopback sockets: for every request sequence of length 0-3 over a 3-value alphabet (complete, plus every boundary value as a single message; bidirectional: complete product with the reply sequences under three fixed schedules) the scripted stub service must receive exactly the client messages in order followed by io.EOF, and the initial payload must arrive equal and in its designed location. In both tiers an operation-sequence family runs services that mix unary and WebSocket streaming methods (unary GET with path and query parameters, POST with a body, PUT with headers and cookies, server, client and bidirectional streaming): every sequence of operations (method x {every attribute set, only required attributes with other values}) of length <= 3 (thorough <= 4) is executed in a fresh process on ONE generated client object and ONE mounted generated server over real sockets (net/http client and gorilla dialer against a server on a unix domain socket), and the request-side observation of its last operation (service invoked once, payload received, request line, headers, body, streamed messages delivered to the service) must equal the observation of the same operation executed alone on a fresh pair, so that state a call leaves in the client object, in the server and its handlers, or in package-level variables is detected. Exhaustive within the envelope; both halves of the generated code are executed against each other, which no golden test does.",
   design_ref="DESIGN.md section 3 C02, section 2 E2",
-  note="In-memory wire (http.Request.Write -> http.ReadRequest -> goa muxer on a recorder) instead of sockets; equality normalisations listed in the evidence assumptions; streaming driven in the thorough tier only; multipart not driven.",
+  note="In-memory wire (http.Request.Write -> http.ReadRequest -> goa muxer on a recorder) instead of sockets; equality normalisations listed in the evidence assumptions; the streaming family is driven in the thorough tier only, the operation-sequence family (real sockets) in both; multipart not driven.",
  ),
  "C03": dict(
   engine="E2",
   technique="bounded exhaustive enumeration of (design, result value) pairs executed through stub -> generated server -> wire -> generated client, compared with a reference model of status selection, locations and defaults",
-  text="For every accepted design of the L1 response families, the status/tag family and the deep type-structure family of JSON bodies (same shape menu as C02 on the result side) and every valid result value (complete product per method), the result returned by the stub service is compared with the value returned by the generated client endpoint; the status code must be the one the reference selects (first response whose tag matches, else the untagged one), every attribute must sit in its designed header/cookie/body position, and exactly one WriteHeader is issued; XML/gob/text content types are compared by value. Thorough tier: for WebSocket streaming endpoints every reply sequence of length 0-3 must reach the client in order followed by io.EOF (including the empty stream), and the final result of client-streaming endpoints must arrive equal. Exhaustive within the envelope.",
+  text="For every accepted design of the L1 response families, the status/tag family and the deep type-structure family of JSON bodies (same shape menu as C02 on the result side) and every valid result value (complete product per method), the result returned by the stub service is compared with the value returned by the generated client endpoint; the status code must be the one the reference selects (first response whose tag matches, else the untagged one), every attribute must sit in its designed header/cookie/body position, and exactly one WriteHeader is issued; XML/gob/text content types are compared by value. Thorough tier: for WebSocket streaming endpoints every reply sequence of length 0-3 must reach the client in order followed by io.EOF (including the empty stream), and the final result of client-streaming endpoints must arrive equal. In both tiers the operation-sequence family of C02 (services mixing unary and WebSocket streaming methods, every sequence of operations of length <= 3, thorough <= 4, one fresh process per sequence on one generated client object and one mounted server over a unix domain socket) is run with the response-side observation: status, response headers and body, result or error returned by the client endpoint, messages delivered by the client stream and the final result of a client stream of the last operation must equal those of the same operation executed alone on a fresh pair. Exhaustive within the envelope.",
   design_ref="DESIGN.md section 3 C03, section 2 E2",
-  note="Same trusted base as C02; viewed results are covered by C08; streaming driven in the thorough tier only.",
+  note="Same trusted base as C02; viewed results are covered by C08; the streaming family is driven in the thorough tier only, the operation-sequence family in both.",
  ),
  "C04": dict(
   engine="E2",
